@@ -13,6 +13,16 @@ func (op *FsTxn) postCommit() {
 func (op *FsTxn) commitWait(wait bool) bool {
 	op.preCommit()
 	ok := op.Atxn.Op.CommitWait(wait)
+	if !ok {
+		// The journal refused the transaction (it does not fit in the
+		// log): nothing was committed.  Undo like Abort does: forget the
+		// inodes modified in place and give the allocations back; the
+		// frees must not be applied.
+		op.dropInodes()
+		op.releaseInodes()
+		op.Atxn.PostAbort()
+		return false
+	}
 	op.postCommit()
 	return ok
 }
